@@ -3,12 +3,15 @@
 import glob, json, os, subprocess, sys
 V = os.path.dirname(os.path.dirname(os.path.abspath(__file__)))
 rows = []
-for d in sorted(glob.glob(os.path.join(V, 'seeded', '*-*'))):
+only = [a.split('=', 1)[1] for a in sys.argv[1:] if a.startswith('--only=')]       # e.g. --only=C0?-[78]
+pattern = only[0] if only else '*-*'
+passthrough = [a for a in sys.argv[1:] if not a.startswith('--only=')]
+for d in sorted(glob.glob(os.path.join(V, 'seeded', pattern))):
     mp = os.path.join(d, 'meta.json')
     meta = json.load(open(mp))
     if 'detected_at_first_try' not in meta:
         meta['detected_at_first_try'] = meta.get('detected_by')
-    r = subprocess.run([sys.executable, os.path.join(V, 'tools', 'try_seed.py'), d, '--skip-confirm'] + sys.argv[1:], capture_output=True, text=True)
+    r = subprocess.run([sys.executable, os.path.join(V, 'tools', 'try_seed.py'), d, '--skip-confirm'] + passthrough, capture_output=True, text=True)
     out = r.stdout
     try:
         res = json.loads(out[:out.rindex('}') + 1])
@@ -19,4 +22,5 @@ for d in sorted(glob.glob(os.path.join(V, 'seeded', '*-*'))):
     json.dump(meta, open(mp, 'w'), indent=1)
     rows.append((os.path.basename(d), meta['property'], bool(meta['detected_at_first_try']), bool(meta['detected_by'])))
     print(rows[-1], flush=True)
-json.dump(rows, open(os.path.join(V, 'seeded', 'SUMMARY.json'), 'w'), indent=1)
+if not only:
+    json.dump(rows, open(os.path.join(V, 'seeded', 'SUMMARY.json'), 'w'), indent=1)
